@@ -20,6 +20,8 @@ pub struct Monitors {
     pub observer: bool,
     pub privkeys: bool,
     pub joiner: bool,
+    /// C04 probe in every state
+    pub reject: bool,
 }
 
 #[derive(Clone, Debug, PartialEq, Eq)]
@@ -35,6 +37,8 @@ pub struct HState {
     pub w: World,
     /// key packages of outstanding by-reference Add proposals
     pub pending_adds: Vec<(usize, MlsMessage)>,
+    /// handshake messages of the last round (for wrong-epoch replays)
+    pub last_round_msgs: Vec<MlsMessage>,
 }
 
 #[derive(Clone, Debug, PartialEq, Eq)]
@@ -66,7 +70,7 @@ impl HistoryModel {
         for p in 0..self.n_parties {
             w.set_psk(p, 0, b"psk-zero-value".to_vec());
         }
-        HState { w, pending_adds: vec![] }
+        HState { w, pending_adds: vec![], last_round_msgs: vec![] }
     }
 
     /// Scripted seed: apply a list of rounds through the same step function (oracles included).
@@ -195,11 +199,9 @@ impl HistoryModel {
         }
         for gh in &w.ghosts {
             for (kind, m) in &msgs {
-                if m.epoch().map(|e| e <= gh.removed_at_epoch && !gh.saw_removal && kind == "round-commit").unwrap_or(false) {
-                    continue;
-                }
-                // the commit that removes the ghost may be processed by it (that is how it learns)
-                if !gh.saw_removal && m.epoch() == Some(gh.group.current_epoch()) && kind == "round-commit" {
+                // only traffic of later epochs: messages of the ghost's last epoch (among them the
+                // commit that removes it, which is how it learns of the removal) are legitimately readable
+                if m.epoch().map(|e| e <= gh.removed_at_epoch).unwrap_or(false) {
                     continue;
                 }
                 let mut g = gh.group.clone();
@@ -332,6 +334,7 @@ impl HistoryModel {
                         ctx.outcome("recv-commit:Removed");
                         // ghost variants: one that processed its removal, one that never saw it
                         let after = w.parties[p].group.take().unwrap();
+                        ctx.outcome(format!("removed-member-epoch-delta:{}", after.current_epoch() - e0));
                         let name = w.parties[p].name.clone();
                         w.ghosts.push(Ghost { name: name.clone(), party: p as u32, group: after, saw_removal: true, removed_at_epoch: e0 });
                         w.ghosts.push(Ghost { name, party: p as u32, group: before, saw_removal: false, removed_at_epoch: e0 });
@@ -449,6 +452,8 @@ impl HistoryModel {
             }
         }
         self.after_epoch_change(w, "commit", Some(by), &prev_tree_bytes, had_path, ctx);
+        s.last_round_msgs = vec![msg.clone()];
+        let w = &mut s.w;
         let mut round = vec![("round-commit".to_string(), msg)];
         if let Some(gi) = &built.out.external_commit_group_info {
             round.push(("group-info".into(), gi.clone()));
@@ -489,6 +494,8 @@ impl HistoryModel {
                 }
             }
         }
+        s.last_round_msgs.push(m.clone());
+        let w = &mut s.w;
         self.ghost_check(w, &[("round-proposal".into(), m)], &[], &[], ctx);
         Step::Continue
     }
@@ -568,12 +575,16 @@ impl HistoryModel {
     }
 
     fn apply_act(&self, s: &mut HState, a: &Act, ctx: &mut Ctx) -> Step {
-        match a {
+        let step = match a {
             Act::Commit { by, spec } => self.do_commit(s, *by, spec, ctx),
             Act::Propose { by, prop } => self.do_propose(s, *by, Some(prop), ctx),
             Act::ProposeUpdate { by } => self.do_propose(s, *by, None, ctx),
             Act::External { by, resync } => self.do_external(s, *by, *resync, ctx),
+        };
+        if self.mon.reject && matches!(step, Step::Continue) {
+            super::c04::probe(s, ctx);
         }
+        step
     }
 }
 
